@@ -30,6 +30,12 @@ func Attachments(r *rand.Rand, n int, seq *int) ([]any, []gen.Link) {
 	var out []any
 	var links []gen.Link
 	for i := 0; i < n; i++ {
+		if r.Intn(7) == 0 {
+			// an entry without a usable label: shown as an inline error, opens nothing, but still occupies its position
+			out = append(out, []any{map[string]any{"type": "Image"}, map[string]any{"type": "Document", "url": "https://files.example/x", "name": 7.0}, map[string]any{"type": "Link", "name": []any{}}}[r.Intn(3)])
+			links = append(links, gen.Link{Kind: "attachment:broken"})
+			continue
+		}
 		*seq++
 		label := fmt.Sprintf("QATT%s", alpha(*seq))
 		kind := []string{"Link", "Image", "Video", "Document", "Audio"}[r.Intn(5)]
